@@ -12,6 +12,9 @@ def run_case(case):
     if out["status"] == "hang":
         out["keys"] = {"C19": [["fix:hang", {"trace": r.get("trace", "")[-400:]}]]}
         return out
+    if out["status"] == "parse_crash":
+        out["keys"] = {"C19": [["parse:%s:%s" % (r["exc"], r["frame"]), {"trace": r["trace"][-500:]}]]}
+        return out
     if "props" not in r:
         return out
     keys = {}
